@@ -441,7 +441,7 @@ def _jobs_for(prop, tier):
         return [j for j in jobs_option_below(tier) if j[1][3] == 'combinations'] + jobs_combinations(tier) + jobs_axis0(tier, 'combinations')
     if prop == 'C03':
         return jobs_c03(tier) + jobs_option_reduce(tier) + jobs_axis(tier, ('reduce',)) + jobs_reduce_nonlocal(tier)
-    return {'C02': (lambda t: jobs_c02(t) + jobs_numpy_toregular(t)), 'C03': jobs_c03, 'C04': (lambda t: jobs_c04(t) + jobs_numpy_toregular(t)), 'C06': (lambda t: jobs_c06(t) + jobs_axis(t, ('sort', 'argsort')) + jobs_numpy_sort(t) + jobs_sort_nonlocal(t) + jobs_option_sort(t) + jobs_option_sort_above(t) + jobs_option_argsort(t) + jobs_string_argsort(t)), 'C08': (lambda t: jobs_c08(t) + jobs_numpy(t) + jobs_union(t) + jobs_reverse_merge(t) + jobs_record_merge(t) + jobs_list_merge(t) + [j for j in jobs_record_named(t) if j[0] is h_record_mergemany_named] + jobs_merge_union(t) + jobs_union_ops(t)), 'C17': (lambda t: jobs_c17(t) + jobs_record_keys(t)), 'C12': jobs_numpy, 'C10': (lambda t: jobs_c10(t) + [j for j in jobs_record_named(t) if j[0] is h_record_field_key] + jobs_project(t) + [j for j in jobs_option_below(t) if j[1][3] in ('getitem_field', 'getitem_fields')] + jobs_record_setitem(t)), 'C05': jobs_c05, 'C09': jobs_c09}.get(prop, lambda t: [])(tier)
+    return {'C02': (lambda t: jobs_c02(t) + jobs_numpy_toregular(t)), 'C03': jobs_c03, 'C04': (lambda t: jobs_c04(t) + jobs_numpy_toregular(t)), 'C06': (lambda t: jobs_c06(t) + jobs_axis(t, ('sort', 'argsort')) + jobs_numpy_sort(t) + jobs_sort_nonlocal(t) + jobs_option_sort(t) + jobs_option_sort_above(t) + jobs_option_argsort(t) + jobs_string_argsort(t)), 'C08': (lambda t: jobs_c08(t) + jobs_numpy(t) + jobs_union(t) + jobs_reverse_merge(t) + jobs_record_merge(t) + jobs_list_merge(t) + [j for j in jobs_record_named(t) if j[0] is h_record_mergemany_named] + jobs_merge_union(t) + jobs_union_ops(t)), 'C17': (lambda t: jobs_c17(t) + jobs_record_keys(t)), 'C12': (lambda t: jobs_numpy(t) + jobs_numpy_astype(t)), 'C10': (lambda t: jobs_c10(t) + [j for j in jobs_record_named(t) if j[0] is h_record_field_key] + jobs_project(t) + [j for j in jobs_option_below(t) if j[1][3] in ('getitem_field', 'getitem_fields')] + jobs_record_setitem(t)), 'C05': jobs_c05, 'C09': jobs_c09}.get(prop, lambda t: [])(tier)
 
 
 # ------------------------------------------------------------------------------------------------ C01: getitem_next of list nodes
@@ -5893,3 +5893,63 @@ def h_union_flatten_mixed(deep_first):
 
     return mdischarge(nc.m, unit, obls, [], replay=replay,
                       prefer=[lenA <= 8, lenB <= 8], extra=dict(bounds='one fixed shape: entries (shallow[0], deep[0], shallow[1]); origins and leaf lengths symbolic'))
+
+
+# ------------------------------------------------------------------------------------------------ C12: values_astype of an n-dimensional leaf
+@guard
+def h_numpy_astype(shape, to='int32'):
+    """NumpyArray::numbers_to_type (what ak.values_astype calls) on a contiguous n-dimensional int64 array: every element of every dimension is
+    converted (C cast to the target type), the shape is kept, and nothing is read or written outside the buffers"""
+    shape = tuple(shape)
+    total = 1
+    for x in shape:
+        total *= x
+    nc = NodeCtx(['NA', 'IDX', 'CNT', 'UTL', 'KD', 'IDS'], [], unwind=max(14, 2 * len(shape) + 2 * total + 10))
+    nc.m.eng.stubs.update(string_stubs(nc))
+    from .mbuild import cstring_stubs
+    nc.m.eng.stubs.update({k_: v_ for k_, v_ in cstring_stubs().items() if 'compare' in k_})
+    # harness nodes carry no parameters (__array__ is neither "byte" nor "char")
+    # the parsing of the type name is not the subject: name_to_dtype answers the dtype of the concrete name
+    nc.m.eng.stubs['_ZN7awkward4util13name_to_dtypeE*'] = lambda eng, fr, ins, st, name, argv: z3.BitVecVal(NP_DTYPES[to][0], 32)
+    this, xs = build_numpynd(nc, 'arr', shape)
+    kc = {}
+    _string_cells(kc, 0, 'tname', to)
+    name = nc.m.record('tname', kc, const=True)
+    nc.m.record('ret', {})
+    out = nc.m.call('_ZNK7awkward10NumpyArray15numbers_to_typeERKNSt7__cxx1112basic_stringIcSt11char_traitsIcESaIcEEE', [Ptr('ret', 0), this, name])
+    obls = [('numbers_to_type does not raise', out.raised)]
+    bits = {'int32': 32, 'int8': 8, 'int16': 16}[to]
+
+    def nest(d, base):
+        if d == len(shape) - 1:
+            return [Elem(z3.SignExt(64 - bits, z3.Extract(bits - 1, 0, xs[base + i]))) for i in range(shape[d])]
+        step = 1
+        for x in shape[d + 1:]:
+            step *= x
+        return [nest(d + 1, base + i * step) for i in range(shape[d])]
+    want = nest(0, 0)
+    try:
+        cases = list(nodeh.decode_cases(nc, out.mem, nc.m.cell('ret', 0)))
+    except Unsupported as err:
+        cases = []
+        obls.append(('an answer that can be read back (%s)' % str(err)[:70], z3.Not(out.raised)))
+    for g, res in cases:
+        if res is None:
+            obls.append(('a result is returned', z3.And(g, z3.Not(out.raised))))
+        else:
+            obls += [(nm, z3.And(g, c)) for nm, c in nodeh.compare_value(res, want)]
+
+    def replay(model, ent):
+        import numpy as np
+        vals = [model.eval(x, model_completion=True).as_signed_long() for x in xs]
+        vals = [v if abs(v) < 2 ** 40 else v % 1000 for v in vals]
+        prog = 'i64nd %d %s %s astype %s' % (len(shape), ' '.join(map(str, shape)), ' '.join(map(str, vals)), to)
+        exp = np.array(vals, dtype=np.int64).astype(to).reshape(shape).tolist()
+        return akrun_check(prog, exp, 'values_astype(%s) of an int64 array of shape %s' % (to, shape))
+    return mdischarge(nc.m, 'NumpyArray::numbers_to_type(%s) shape=%s' % (to, ','.join(map(str, shape))), obls, [], replay=replay,
+                      extra=dict(bounds='shape %s concrete (case split), int64 values symbolic, contiguous' % (shape,)))
+
+
+def jobs_numpy_astype(tier):
+    q = [(3,), (2, 2), (3, 2)] if tier == 'quick' else [(0,), (3,), (2, 2), (3, 2), (1, 3), (2, 1, 2), (2, 0), (0, 2)]
+    return [(h_numpy_astype, (s_,), 1800) for s_ in q] + ([(h_numpy_astype, ((2, 2), 'int8'), 1800)] if tier != 'quick' else [])
